@@ -74,16 +74,16 @@ NewBad(i, kind) ==
 (* Other use of the library in the same process between two resolver events: computing the mass of a plain      *)
 (* molecule graph, a sampler run, writing a molecule, reading unrelated strings.  It addresses no resolver object *)
 (* and must not influence any later result (C12: results depend on the input alone).  At most one per history,  *)
-(* directly in front of a resolver event, to keep the universe small.                                             *)
+(* right after the first constructor, and no further object afterwards - to keep the universe small.            *)
 NOthers == Cardinality({k \in DOMAIN hist : hist[k].op = "other"})
 Other(kind) ==
-  /\ NOthers = 0 /\ Len(hist) >= 1 /\ Len(hist) < MaxEvents - 1
+  /\ NOthers = 0 /\ Len(hist) = 1 /\ Len(hist) < MaxEvents - 1     \* right after the first constructor; such histories stay single-object
   /\ UNCHANGED objs
   /\ hist' = Append(hist, [op |-> "other", obj |-> 0, inp |-> hist[1].inp, ctor |-> kind, from |-> 0, to |-> 0])
 
 Next == /\ Len(hist) < MaxEvents
-        /\ \/ \E i \in Inputs, c \in Ctors : New(i, c)
-           \/ \E i \in Inputs : NewStaged(i)
+        /\ \/ NOthers = 0 /\ \E i \in Inputs, c \in Ctors : New(i, c)
+           \/ NOthers = 0 /\ \E i \in Inputs : NewStaged(i)
            \/ \E i \in Inputs, kind \in BadKinds : NewBad(i, kind)
            \/ \E kind \in OtherKinds : Other(kind)
            \/ \E o \in DOMAIN objs : Resolve(o) \/ Iterate(o) \/ All(o) \/ Past(o)
